@@ -1,6 +1,8 @@
 //! Interpreter for Reference handle sequences (C17). Shared verbatim (via #[path]) between the main
 //! harness crate, which declares cargo features named `alloc` and `std`, and the `downstream`
-//! crate built with and without them: `to_dyn!` must behave the same in both.
+//! crate built with and without them: `to_dyn!` must behave the same in both. The crate features `interp_alloc` /
+//! `interp_std` (names deliberately different from `alloc` / `std`) say which Reference variants the rrtk this is
+//! compiled against offers: `ds_variants` builds it against an alloc-only and a feature-less rrtk as well.
 use rrtk::*;
 use std::sync::atomic::{AtomicU32, Ordering};
 use std::sync::{Arc, Mutex, RwLock};
@@ -45,6 +47,14 @@ impl Variant {
     pub fn counted(self) -> bool {
         matches!(self, Variant::RcRefCell | Variant::ArcRwLock | Variant::ArcMutex)
     }
+    /// does the rrtk build this interpreter is compiled against have the variant?
+    pub fn available(self) -> bool {
+        match self {
+            Variant::Ptr => true,
+            Variant::RcRefCell => cfg!(feature = "interp_alloc"),
+            _ => cfg!(feature = "interp_std"),
+        }
+    }
 }
 #[derive(Clone, Copy, Debug, PartialEq)]
 pub enum HOp {
@@ -83,6 +93,7 @@ pub struct Info {
     pub max_handles: usize,
     pub used_dyn: bool,
 }
+#[allow(dead_code)]
 enum Backing {
     Ptr(*mut Payload),
     RwLock(*mut RwLock<Payload>),
@@ -102,17 +113,24 @@ pub fn run(variant: Variant, ops: &[HOp]) -> Result<Info, (String, String)> {
             let p = Box::into_raw(Box::new(payload));
             (unsafe { Reference::from_ptr(p) }, Backing::Ptr(p))
         }
+        #[cfg(feature = "interp_alloc")]
         Variant::RcRefCell => (rc_ref_cell_reference(payload), Backing::Counted),
+        #[cfg(feature = "interp_std")]
         Variant::PtrRwLock => {
             let p = Box::into_raw(Box::new(RwLock::new(payload)));
             (unsafe { Reference::from_ptr_rw_lock(p as *const RwLock<Payload>) }, Backing::RwLock(p))
         }
+        #[cfg(feature = "interp_std")]
         Variant::PtrMutex => {
             let p = Box::into_raw(Box::new(Mutex::new(payload)));
             (unsafe { Reference::from_ptr_mutex(p as *const Mutex<Payload>) }, Backing::Mutex(p))
         }
+        #[cfg(feature = "interp_std")]
         Variant::ArcRwLock => (arc_rw_lock_reference(payload), Backing::Counted),
+        #[cfg(feature = "interp_std")]
         Variant::ArcMutex => (arc_mutex_reference(payload), Backing::Counted),
+        #[allow(unreachable_patterns)]
+        _ => return fail("C17/protocol", format!("variant {:?} does not exist in this build of rrtk", variant)),
     };
     let vname = format!("{:?}", variant);
     let mut handles: Vec<Option<Handle>> = vec![Some(Handle::Concrete(first))];
